@@ -547,3 +547,29 @@ func init() {
 		Outside: "widths / batch sizes above 3; models other than FC -> activation -> loss",
 	})
 }
+
+var c08OpNames = []string{
+	"Scale", "Pow", "Exp", "Log", "Sin", "Cos", "Tan", "Sinh", "Cosh", "Tanh",
+	"Transpose", "Reshape", "UnSqueeze", "Squeeze", "Flatten", "Broadcast", "Slice",
+	"SumAlong", "MaxAlong", "MinAlong", "AvgAlong", "VarAlong", "StdAlong", "MeanAlong",
+	"Add", "Sub", "Mul", "Div", "ElMax", "ElMin", "Dot", "MatMul", "Patch", "Concat2", "Concat3",
+	"Eq", "Ne", "Gt", "Ge", "Lt", "Le",
+}
+
+func init() {
+	allChecks = append(allChecks, &Check{
+		ID: "C08", Level: "model_checking",
+		Harnesses: []Harness{
+			{Name: "C08_step", Pkg: "zzh", Func: "H_C08_step", Reach: []string{"done"},
+				What:  "one application of each of the 35 differentiable ops / Concat (2,3 operands) / 6 comparisons with every operand in a solver-chosen state {clean untracked, tracked leaf, spent tracked, computed-from-spent}: result flags, no gradient, forward values identical to the untracked run",
+				Items: func(string) []Item { return sItems("op", c08OpNames, items(map[string]int64{})) }},
+			{Name: "C08_hist", Pkg: "zzh", Func: "H_C08_hist", Reach: []string{"done"},
+				What:  "solver-enumerated histories over {new leaf, Scale, Add, Gt, Concat+Slice, BackPropagate(i), ResetGradContext(i,b)} against a reference state machine (preconditions (a),(b) assumed); after every step every tensor's gradient presence / tracked / spent flags; footprint of BackPropagate",
+				Items: tiered(func() []Item { return items(map[string]int64{"steps": 1}, map[string]int64{"steps": 2}, map[string]int64{"steps": 3}) },
+					func() []Item { return items(map[string]int64{"steps": 1}, map[string]int64{"steps": 2}, map[string]int64{"steps": 3}, map[string]int64{"steps": 4}) })},
+		},
+		Assumptions: []string{"histories respect the property's preconditions (a) single-use graphs apart from shared leaves and (b) no reset of a tensor with tracked, not yet back-propagated results",
+			"the one-step harness covers flag propagation for histories of any length (arbitrary operand states, one operation)", numericModel},
+		Outside: "histories longer than 4 steps after the first leaf (3 in quick); operand shapes other than [2,2] / [2]",
+	})
+}
